@@ -15,15 +15,21 @@ from vf import core
 LENS = (1, 2, 17, 100, 1000, 4096, 16384)
 
 
-def consts(mode, vc, vs, *, peer=2, child=1, cuts=2):
+def consts(mode, vc, vs, *, peer=(1, 1), child=(1, 1), cuts=1):
     return {"Mode": mode,
             "Flights": {"client": 2, "server": 1 if vs == "1.3" else 2},
             "Early": {"client": vc == "1.3", "server": vs == "1.2"},
             "Post": {"client": 0, "server": 1 if vs == "1.3" else 0},
-            "MaxPeerData": peer, "MaxChildData": child, "MaxCuts": cuts}
+            "MaxPeerData": {"client": peer[0], "server": peer[1]},
+            "MaxChildData": {"client": child[0], "server": child[1]}, "MaxCuts": cuts}
 
 
-CONFIGS_QUICK = (("lazy", "1.3", "1.3"), ("server_first", "1.3", "1.2"), ("lazy", "1.2", "1.2"), ("server_first", "1.2", "1.3"))
+# (mode, client TLS version, server TLS version, bounds)
+CONFIGS_QUICK = ((("lazy", "1.3", "1.2"), dict(peer=(2, 1), child=(1, 0), cuts=1)),
+                 (("server_first", "1.3", "1.3"), dict(peer=(1, 2), child=(0, 1), cuts=1)),
+                 (("lazy", "1.2", "1.3"), dict(peer=(1, 1), child=(1, 1), cuts=1)))
+BIG = (("lazy", "1.3", "1.2"), ("server_first", "1.2", "1.3"))
+BIG_BOUNDS = dict(peer=(2, 2), child=(1, 1), cuts=2)
 CONFIGS_ALL = tuple((m, a, b) for m in ("lazy", "server_first") for a in ("1.3", "1.2") for b in ("1.3", "1.2"))
 
 
@@ -32,12 +38,14 @@ def run(sc: dict, confdir: str) -> list[dict]:
 
     w = tlsworld.World(confdir, mode=sc["mode"], vclient=sc["vclient"], vserver=sc["vserver"], cutseed=sc.get("cutseed", 0))
     w.start()
-    nid = 0
+    count = {}
 
-    def next_id():
-        nonlocal nid
-        nid += 1
-        return (nid - 1) % 250 + 1
+    def next_id(stream, c):
+        # one range of byte values per stream (peer->inner 11.. / 21.., inner->peer 31.. / 41..), as in the model
+        base = {("peer", "client"): 10, ("peer", "server"): 20, ("child", "client"): 30, ("child", "server"): 40}[(stream, c)]
+        n = count.get((stream, c), 0)
+        count[(stream, c)] = n + 1
+        return base + n % 9 + 1
 
     for op in sc["ops"]:
         if w.failed:
@@ -48,20 +56,20 @@ def run(sc: dict, confdir: str) -> list[dict]:
         elif k == "deliver_bytes":
             ok = w.deliver(op[1], nbytes=op[2])
         elif k == "peer_send":
-            ok = w.peer_send(op[1], [[next_id(), n] for n in op[2]])
+            ok = w.peer_send(op[1], [[next_id("peer", op[1]), n] for n in op[2]])
         elif k == "peer_cn":
             ok = w.peer_close_notify(op[1])
         elif k == "fin":
             ok = w.fin_from(op[1])
         elif k == "child_send":
-            ok = w.child_send(op[1], next_id(), op[2])
+            ok = w.child_send(op[1], next_id("child", op[1]), op[2])
         elif k == "child_open":
             ok = w.child_open()
         elif k == "end":
             break
         else:
             raise ValueError(op)
-        if not ok:
+        if not ok and not sc.get("lenient"):
             break  # not enabled on the real stack (it diverged from the model): judge what was observed so far
     return w.end()
 
@@ -99,13 +107,30 @@ class Check(core.PropertyCheck):
         return {}
 
     def model_runs(self, ctx):
-        out = []
-        cfgs = CONFIGS_QUICK if ctx.quick else CONFIGS_ALL
-        for i, (mode, vc, vs) in enumerate(cfgs):
-            c = consts(mode, vc, vs) if ctx.quick else consts(mode, vc, vs, peer=2, child=1, cuts=3)
-            m = ctx.model_check(self.MODEL, c, dump=True, tag=f"_{i}", view="View")
+        from concurrent.futures import ThreadPoolExecutor
+
+        bounds = (dict(peer=(2, 1), child=(1, 0), cuts=1), dict(peer=(1, 2), child=(0, 1), cuts=1),
+                  dict(peer=(1, 1), child=(1, 1), cuts=1))
+        if ctx.quick:
+            cfgs = list(CONFIGS_QUICK)
+        else:  # every mode / version combination, dumped at the small bounds
+            cfgs = [(c, bounds[i % 3]) for i, c in enumerate(CONFIGS_ALL)]
+
+        def one(arg):
+            i, ((mode, vc, vs), kw) = arg
+            m = ctx.model_check(self.MODEL, consts(mode, vc, vs, **kw), dump=True, tag=f"_{i}", view="View",
+                                timeout=1200 if ctx.quick else 3000)
             m.cfg = (mode, vc, vs)
-            out.append(m)
+            return m
+
+        with ThreadPoolExecutor(3 if ctx.quick else 4) as ex:  # each TLC run is single-threaded (dump)
+            out = list(ex.map(one, enumerate(cfgs)))
+        if not ctx.quick:  # larger instances: exhaustive statistics without a dump; behaviours come from -simulate
+            for j, (mode, vc, vs) in enumerate(BIG):
+                m = ctx.model_check(self.MODEL, consts(mode, vc, vs, **BIG_BOUNDS), dump=False, tag=f"_big{j}", view="View",
+                                    timeout=3000, workers=4)
+                m.cfg = (mode, vc, vs)
+                out.append(m)
         return out
 
     @staticmethod
@@ -133,6 +158,14 @@ class Check(core.PropertyCheck):
         for m in models:
             mode, vc, vs = m.cfg
             g = m.graph
+            if g is None:  # the larger instances (thorough): random behaviours from tlc -simulate
+                behs, _r = ctx.simulate(self.MODEL, consts(mode, vc, vs, **BIG_BOUNDS), num=1200, depth=45,
+                                        tag=f"sim_{mode}_{vc}_{vs}".replace(".", ""))
+                for b in behs:
+                    pred = core.predicted_events(b) + [{"k": "end"}]
+                    yield core.Scenario({"mode": mode, "vclient": vc, "vserver": vs, "ops": self._ops(b, rng),
+                                         "cutseed": rng.randrange(1 << 30)}, predicted=self.drift_view(pred), source="simulate")
+                continue
             behs = g.edge_cover(ctx.rng, max_len=40, tail=8)
             behs += g.random_walks(ctx.rng, 150 if ctx.quick else 1500, 30)
             if ctx.quick and len(behs) > 700:
@@ -147,7 +180,7 @@ class Check(core.PropertyCheck):
         for _ in range(250 if ctx.quick else 4000):
             mode, vc, vs = rng.choice(CONFIGS_ALL)
             yield core.Scenario({"mode": mode, "vclient": vc, "vserver": vs, "ops": self._random_ops(rng, mode),
-                                 "cutseed": rng.randrange(1 << 30)}, source="random")
+                                 "cutseed": rng.randrange(1 << 30), "lenient": True}, source="random")
 
     @staticmethod
     def _random_ops(rng, mode):
@@ -162,6 +195,8 @@ class Check(core.PropertyCheck):
                                else ["deliver", c, rng.randint(1, 4)])
             if mode == "lazy" and rng.random() < 0.5 and ["child_open"] not in ops:
                 ops.append(["child_open"])
+            if rng.random() < 0.5:  # data written as soon as the peer may (same flight as its Finished); skipped if too early
+                ops.append(["peer_send", rng.choice(["client", "server"]), [rng.choice(LENS) for _k in range(rng.choice([1, 2]))]])
         if mode == "lazy" and ["child_open"] not in ops:
             ops.append(["child_open"])
         for c in ("client", "server", "client", "server"):
@@ -176,14 +211,14 @@ class Check(core.PropertyCheck):
                 ops.append(["deliver_bytes", c, rng.choice([1, 2, 5, 21, 22, 23, 100, 1000, 16384, 16400, 40000])] if rng.random() < 0.6
                            else ["deliver", c, rng.randint(1, 5)])
             elif r < 0.9:
-                ops.append(["child_send", c, rng.choice(LENS + (30000,))])
+                ops.append(["child_send", c, rng.choice(LENS + (30000, 70000))])
             elif r < 0.96 and c not in closed:
                 ops.append(["peer_cn", c])
                 closed.add(c)
         for c in ("client", "server"):
             ops.append(["deliver_bytes", c, 1 << 20])
-        for c in closed:
-            if rng.random() < 0.6:
+        for c in ("client", "server"):
+            if rng.random() < (0.6 if c in closed else 0.3):
                 ops.append(["fin", c])
         ops.append(["end"])
         return ops
